@@ -136,7 +136,12 @@ def run_tlc(module, cfg, workers=None, timeout=3600, simulate=None, depth=None, 
     res = TlcResult()
     md = os.path.join(BUILD, "tlc", "%s-%d-%d" % (os.path.basename(cfg), os.getpid(), random.randrange(1 << 30)))
     os.makedirs(md, exist_ok=True)
-    cmd = ["timeout", str(timeout), "tlc", "-metadir", md, "-config", cfg, "-noGenerateSpecTE"]
+    # the java launcher gives the main thread (which evaluates constant definitions and initial
+    # states) the -Xss stack only when the option is on the command line, so java is run directly
+    # with the class path of the pre-installed `tlc` wrapper
+    cp = "/opt/veriftools/tla/tla2tools.jar:/opt/veriftools/tla/CommunityModules-deps.jar"
+    cmd = ["timeout", str(timeout), "java", "-Xss512m", "-XX:+UseParallelGC", "-cp", cp, "tlc2.TLC",
+           "-metadir", md, "-config", cfg, "-noGenerateSpecTE"]
     if simulate:
         cmd += ["-simulate", "num=%d" % simulate]
         if depth:
